@@ -162,6 +162,9 @@ func (g *generator) fillCreates(ws uint64, ev *eventSpec, rawTargets map[string]
 func (g *generator) genUpdate(ws uint64, target recRef, rawTargets map[string][]uint64) updateSpec {
 	t := typeByName(g.typeOfRef(target))
 	u := updateSpec{Target: target, Origin: "fresh", Puts: g.genPuts(ws, t, 3, rawTargets, true)}
+	if target.Single != "" && g.r.Chance(2, 3) {
+		u.OriginVia = 2
+	}
 	switch g.r.Intn(8) {
 	case 0:
 		u.Active = boolp(false)
@@ -297,8 +300,8 @@ func (g *generator) genEvent(malformed bool) *eventSpec {
 
 func (g *generator) touched(ev *eventSpec, before int) []obsSpec {
 	var obs []obsSpec
-	// records created by the event: those after `before` in the workspace list
-	for k := before; k < len(g.run.created[ev.WS]); k++ {
+	// records created by the step in this workspace: those after `before` in the workspace list
+	for k := before; k < len(g.run.created[ev.WS]) && before >= 0; k++ {
 		obs = append(obs, obsSpec{Via: g.r.Intn(2), Ref: recRef{WS: ev.WS, K: k}})
 	}
 	for _, c := range ev.Creates {
@@ -359,6 +362,77 @@ func (g *generator) finalObs() []obsSpec {
 	return obs
 }
 
+func (g *generator) singletonExists(ws uint64, s string) bool {
+	_, ok := g.run.types[wsKey{ws, g.run.singletonID(s)}]
+	return ok
+}
+
+// singletonStep: updates of singletons whose origins are all read (mostly through GetSingleton)
+// before the first event is built: the same singleton in two workspaces and/or both singletons of
+// one workspace
+func (g *generator) singletonStep() *op {
+	var evs []*eventSpec
+	for _, ws := range []uint64{wsids[0], wsids[1]} {
+		ev := &eventSpec{WS: ws}
+		for _, s := range []string{"Settings", "WState"} {
+			if g.singletonExists(ws, s) && g.r.Chance(3, 4) {
+				u := g.genUpdate(ws, recRef{WS: ws, Single: s}, nil)
+				u.Again = nil
+				if g.r.Chance(5, 6) {
+					u.OriginVia = 2
+				}
+				ev.Updates = append(ev.Updates, u)
+			}
+		}
+		if len(ev.Updates) > 0 {
+			evs = append(evs, ev)
+		}
+	}
+	if len(evs) == 0 {
+		return nil
+	}
+	if g.r.Bool() {
+		evs[0], evs[len(evs)-1] = evs[len(evs)-1], evs[0]
+	}
+	o := &op{Apply: evs[0], More: evs[1:]}
+	if g.r.Chance(1, 3) {
+		o.Between = g.extraObs()
+	}
+	return o
+}
+
+// groupStep: 2-3 ordinary events over distinct records whose origins are read before the first is built
+func (g *generator) groupStep() *op {
+	o := &op{}
+	seen := map[recRef]bool{}
+	for i, n := 0, 2+g.r.Intn(2); i < n; i++ {
+		ev := g.genEvent(false)
+		var us []updateSpec
+		for _, u := range ev.Updates {
+			if !seen[u.Target] {
+				seen[u.Target] = true
+				us = append(us, u)
+			}
+		}
+		ev.Updates = us
+		if len(ev.Creates)+len(ev.Updates) == 0 {
+			continue
+		}
+		if o.Apply == nil {
+			o.Apply = ev
+		} else {
+			o.More = append(o.More, ev)
+		}
+	}
+	if o.Apply == nil {
+		return nil
+	}
+	if g.r.Chance(1, 3) {
+		o.Between = g.extraObs()
+	}
+	return o
+}
+
 // genAndRun generates one scenario while executing it (the generator looks at which records exist)
 func genAndRun(r *kit.Rng, backend string, maxEvents int, malformedStream bool) (kit.Case, error) {
 	sc := &scenario{Backend: backend, IDBase: kit.Pick(r, idBases)}
@@ -376,15 +450,43 @@ func genAndRun(r *kit.Rng, backend string, maxEvents int, malformedStream bool) 
 	if r.Chance(1, 5) {
 		n = 1 + r.Intn(4)
 	}
-	for i := 0; i < n; i++ {
-		mal := malformedStream && r.Chance(1, 3)
-		ev := g.genEvent(mal)
-		if len(ev.Creates)+len(ev.Updates) == 0 {
-			continue
+	if r.Chance(1, 2) {
+		// singletons early, in both workspaces, so that later steps can update them side by side
+		for _, ws := range []uint64{wsids[0], wsids[1]} {
+			for _, sn := range []string{"Settings", "WState"} {
+				if r.Chance(2, 3) {
+					ev := &eventSpec{WS: ws, Creates: []createSpec{{Raw: g.nextRaw(), Type: sn}}}
+					g.fillCreates(ws, ev, map[string][]uint64{})
+					if err := do(&op{Apply: ev}); err != nil {
+						return kit.Case{}, err
+					}
+				}
+			}
 		}
-		before := len(run.created[ev.WS])
+	}
+	for i := 0; i < n && !run.stopped; i++ {
+		mal := malformedStream && r.Chance(1, 3)
+		var step *op
+		switch {
+		case !mal && r.Chance(1, 5):
+			step = g.singletonStep()
+		case !mal && r.Chance(1, 6):
+			step = g.groupStep()
+		}
+		if step == nil {
+			ev := g.genEvent(mal)
+			if len(ev.Creates)+len(ev.Updates) == 0 {
+				continue
+			}
+			step = &op{Apply: ev}
+		}
+		evs := append([]*eventSpec{step.Apply}, step.More...)
+		before := map[uint64]int{}
+		for _, ws := range wsids {
+			before[ws] = len(run.created[ws])
+		}
 		applied := run.applied
-		if err := do(&op{Apply: ev}); err != nil {
+		if err := do(step); err != nil {
 			return kit.Case{}, err
 		}
 		// every prefix optionally followed by re-applies of its last event
@@ -396,12 +498,20 @@ func genAndRun(r *kit.Rng, backend string, maxEvents int, malformedStream bool) 
 			}
 		}
 		var obs []obsSpec
-		if run.applied > applied {
-			obs = g.touched(ev, before)
-		} else {
-			// a rejected event: what it named must be unchanged
-			for _, u := range ev.Updates {
-				obs = append(obs, obsSpec{Via: 0, Ref: u.Target})
+		doneWS := map[uint64]bool{}
+		for _, ev := range evs {
+			if run.applied > applied {
+				b := -1
+				if !doneWS[ev.WS] {
+					b = before[ev.WS]
+					doneWS[ev.WS] = true
+				}
+				obs = append(obs, g.touched(ev, b)...)
+			} else {
+				// a rejected event: what it named must be unchanged
+				for _, u := range ev.Updates {
+					obs = append(obs, obsSpec{Via: 0, Ref: u.Target})
+				}
 			}
 		}
 		obs = append(obs, g.extraObs()...)
